@@ -82,23 +82,27 @@ def custom(ctx):
     cases, stats = ctx.run_harness(["c08", "--tier", ctx.tier, "--seed", str(ctx.seed)])
     ctx.stats.extend(stats)
     account(cases)
-    ctx.extra["model_comparison"] = ("C08.lex, C08.cond, C08.defscan and C08.textscan requests are compared with the Lean model (TokenStream bookkeeping, "
-                                     "ConditionChain over trees of included files, Macro::parse + apply_macros with locations, with and without apply_defined); "
+    ctx.extra["model_comparison"] = ("C08.lex, C08.cond, C08.defscan, C08.textscan and C08.pipeprops requests are compared with the Lean model (TokenStream bookkeeping, "
+                                     "ConditionChain over trees of included files, Macro::parse + apply_macros with locations, with and without apply_defined, "
+                                     "duplicate-property check + state loop of parse_pipeline / parse_static_sampler); "
                                      "C08.compile requests are the property's own oracle on the real compiler "
                                      "(worker survival, rendered diagnostics, time budget) and have no model prediction")
 
 
 SPEC = {
     "id": "C08",
-    "gens": ["PanicSites", "ArithSites"],
-    "lean_modules": ["RsslVerif.Thm.C08", "RsslVerif.Model.DefinedLoc", "RsslVerif.Lemmas.DefinedLoc", "RsslVerif.Lemmas.ArithClasses"],
+    "gens": ["PanicSites", "ArithSites", "PipelineProps"],
+    "lean_modules": ["RsslVerif.Thm.C08", "RsslVerif.Model.DefinedLoc", "RsslVerif.Lemmas.DefinedLoc", "RsslVerif.Lemmas.ArithClasses",
+                     "RsslVerif.Model.PipelineProps", "RsslVerif.Lemmas.PipelineProps", "RsslVerif.Lemmas.PanicClasses"],
     "theorems": [T + n for n in [
         "panic_sites_classified", "parser_loops_as_modelled", "list_uses_reviewed", "parse_list_progress",
         "parse_list_fuel_irrelevant", "parse_multiple_progress", "parse_multiple_diverges_without_progress",
         "parse_optional_total", "root_loop_progress", "lex_shape_as_modelled", "lex_progress",
         "cond_shape_as_modelled", "cond_chain_total", "cond_include_isolated", "cond_depth_bounded", "macro_guard_as_modelled",
         "stage_errors_rendered", "arith_sites_classified", "defined_shape_as_modelled", "defined_location_safe",
-        "defined_location_needs_plain_rescan", "defined_indices_in_range", "scan_output_has_no_concat"]],
+        "defined_location_needs_plain_rescan", "defined_indices_in_range", "scan_output_has_no_concat",
+        "pipeline_duplicates_as_modelled", "pipeline_duplicate_reported_iff", "pipeline_state_asserts_unreachable",
+        "pipeline_located_compare_reaches_asserts", "panic_class_reasons_hold"]],
     "harness": "c08",
     "custom": custom,
     "finding_key": finding_key,
